@@ -207,7 +207,7 @@ func (p *Program) parseContracts(path string, overlay []byte) error {
 				return fail("guarded: %s needs direct fields %s and %s", tn, fn, f[3])
 			}
 			arr, _ := p.fieldArray(obj.Type(), fi)
-			p.guards[arr] = guardInfo{muField: f[3], muOff: fieldOffset(st, mi), stable: len(f) > 4 && f[4] == "stable"}
+			p.guards[arr] = guardInfo{muField: f[3], st: obj.Type(), muIdx: mi, muOff: fieldOffset(st, mi), stable: len(f) > 4 && f[4] == "stable"}
 			cur = nil
 			last = nil
 			continue
